@@ -135,6 +135,27 @@ func GenSQL(t *rapid.T, o *SQLOpts) *Spec {
 		sg.fillTable(i, tb)
 		sg.defs.Decls = append(sg.defs.Decls, tb.d)
 	}
+	if o.Directives && rapid.IntRange(0, 3).Draw(t, "groupTables") == 0 && !o.gated("directive_in_grouped_decl") {
+		// grouped type declarations: the directive sits in the TypeSpec's own doc
+		n := 0
+		for _, d := range sg.defs.Decls {
+			if d.Kind == KStruct && n < 3 {
+				d.Group = 1
+				n++
+			}
+		}
+		// grouped declarations must be consecutive: move them to the end, keeping their order
+		var single, grouped []*Decl
+		for _, d := range sg.defs.Decls {
+			if d.Group == 1 {
+				grouped = append(grouped, d)
+			} else {
+				single = append(single, d)
+			}
+		}
+		sg.defs.Decls = append(single, grouped...)
+		o.class("decl:grouped_table_structs")
+	}
 	if sg.helperRaw.Len() > 0 {
 		sg.other.Raw = sg.helperRaw.String()
 	}
@@ -576,8 +597,119 @@ func (sg *sqlGen) fillTable(idx int, tb *sqlTable) {
 		d.Doc = append(d.Doc, fmt.Sprintf("gomacro:SQL _SELECT KEY(%s)", strings.Join(cols, ", ")))
 		o.class("directive:select_key")
 	}
+	if o.Directives {
+		sg.addDirectives(idx, tb, plainCols, fkFields)
+	}
 	if rapid.IntRange(0, 2).Draw(t, "plainDoc") == 0 {
 		d.Doc = append([]string{tb.name + " is a table."}, d.Doc...)
+	}
+}
+
+// DirectiveInfo is the reference model of the directives written on a table struct (for C16).
+type QueryRef struct {
+	Func   string
+	Raw    string   // the query text as written in the comment (after the function name)
+	Params []string // distinct placeholder names in first-occurrence order
+	Fields []string // for each param, the Go field it is compared with
+}
+
+func (sg *sqlGen) fieldOf(d *Decl, name string) *Field {
+	for _, f := range d.Fields {
+		if f.Name == name {
+			return f
+		}
+	}
+	return nil
+}
+
+func (sg *sqlGen) addDirectives(idx int, tb *sqlTable, plainCols, fkFields []string) {
+	t := sg.t
+	o := sg.o
+	d := tb.d
+	// a CHECK with enum placeholders on an enum column
+	for _, f := range d.Fields {
+		if f.Type.K != TRef || f.Name == "guard" {
+			continue
+		}
+		isInt, isStr := false, false
+		for _, e := range sg.enumInt {
+			if e == f.Type.Name {
+				isInt = true
+			}
+		}
+		for _, e := range sg.enumStr {
+			if e == f.Type.Name {
+				isStr = true
+			}
+		}
+		if !(isInt || isStr) || rapid.IntRange(0, 1).Draw(t, "enumCheck") != 0 {
+			continue
+		}
+		if isStr && o.gated("string_enum_placeholder") {
+			continue
+		}
+		var consts []string
+		for _, b := range sg.defs.Consts {
+			for _, cs := range b.Specs {
+				if cs.OfType[0] == f.Type.Name && cs.Names[0][0] >= 'A' && cs.Names[0][0] <= 'Z' {
+					consts = append(consts, cs.Names[0])
+				}
+			}
+		}
+		if len(consts) == 0 {
+			continue
+		}
+		var parts []string
+		n := rapid.IntRange(1, min(3, len(consts))).Draw(t, "enumCheckN")
+		for _, cn := range pickDistinct(t, consts, n, "enumCheckConst") {
+			parts = append(parts, fmt.Sprintf("%s = #[%s.%s]", f.Name, f.Type.Name, cn))
+		}
+		d.Doc = append(d.Doc, "gomacro:SQL ADD CHECK ("+strings.Join(parts, " OR ")+")")
+		o.class("directive:check_with_enum_placeholder")
+		break
+	}
+	// a free-standing statement mentioning the table struct by its Go name, next to words that merely contain it
+	if len(plainCols) > 0 && rapid.IntRange(0, 2).Draw(t, "indexDirective") == 0 {
+		col := plainCols[rapid.IntRange(0, len(plainCols)-1).Draw(t, "indexCol")]
+		idxName := sg.pick("indexName", []string{"idx_" + tb.name, tb.name + "_idx", "index_" + strings.ToLower(tb.name), tb.name + "Index", "ix1"})
+		d.Doc = append(d.Doc, fmt.Sprintf("gomacro:SQL CREATE INDEX %s ON %s (%s)", idxName, tb.name, col))
+		o.class("directive:free_standing_statement")
+	}
+	// an explicit FOREIGN KEY naming another table struct after REFERENCES
+	if len(fkFields) > 0 && rapid.IntRange(0, 3).Draw(t, "refDirective") == 0 {
+		fk := fkFields[0]
+		target := ""
+		for _, ot := range sg.tables {
+			if fk == "Id"+ot.name {
+				target = ot.name
+			}
+		}
+		if target != "" {
+			act := sg.pick("refAction", []string{"", " ON DELETE CASCADE", " ON DELETE SET NULL"})
+			d.Doc = append(d.Doc, fmt.Sprintf("gomacro:SQL ADD FOREIGN KEY (%s) REFERENCES %s%s", fk, target, act))
+			o.class("directive:references_struct_name")
+		}
+	}
+	// custom queries
+	if len(plainCols) >= 1 && rapid.IntRange(0, 1).Draw(t, "queryDirective") == 0 {
+		all := append(append([]string{}, plainCols...), fkFields...)
+		setCol := all[rapid.IntRange(0, len(all)-1).Draw(t, "querySet")]
+		whereCol := all[rapid.IntRange(0, len(all)-1).Draw(t, "queryWhere")]
+		fn := sg.fresh("Query" + tb.name + setCol)
+		var q string
+		switch rapid.IntRange(0, 3).Draw(t, "queryShape") {
+		case 0:
+			q = fmt.Sprintf("UPDATE %s SET %s = $newValue$ WHERE %s = $selectV$ ;", tb.name, setCol, whereCol)
+		case 1:
+			// the same placeholder twice (compared with fields of the same type)
+			q = fmt.Sprintf("UPDATE %s SET %s = $v$ WHERE %s = $v$ OR %s = $w$;", tb.name, setCol, setCol, whereCol)
+		case 2:
+			q = fmt.Sprintf("DELETE FROM %s WHERE %s = $key$;", tb.name, whereCol)
+		default:
+			q = fmt.Sprintf("UPDATE %s SET %s = $a$ WHERE %s = $b$ AND %s = $a$;", tb.name, setCol, whereCol, setCol)
+		}
+		d.Doc = append(d.Doc, "gomacro:QUERY "+fn+" "+q)
+		o.class("directive:custom_query")
 	}
 }
 
